@@ -14,6 +14,7 @@ package patch
 //@   ensures [C12] the-file-keeps-the-file-set-and-the-program: err == nil ==> f != nil && f.fset == ret("go/token.NewFileSet", 0) && wfProg(f.prog)
 
 //@ func (f *File) Apply(filename, src) (out, err)
+//@   requires typing: snapEnvOK()
 //@   requires wfProg(f.prog)
 //@   at call engine.NewChangelog set lastChangelog = result0
 //@   at call engine.NewChangelog set changelogsMade = changelogsMade + 1
@@ -21,7 +22,7 @@ package patch
 //@   at call (*engine.Change).Replace set changelogsUsed = changelogsUsed + 1
 //@   at call (*astdiff.Snapshot).Diff assert [C17] the-snapshot-is-advanced-with-the-regions-of-this-change: unbox(arg2, "S_engine_Changelog") == lastChangelog
 //@   at call patch.cleanupFilePos assert [C17] only-the-regions-of-this-change-are-cleaned-up: arg1 == lastChangelog
-//@   assigns group(ast), matchCount, replFail, sitesReplaced, restructured, lastChangelog, changelogsMade, changelogsUsed
+//@   assigns group(ast), matchCount, replFail, sitesReplaced, restructured, lastChangelog, changelogsMade, changelogsUsed, allof("F.S_astdiff_value.Comments")
 //@   at call go/parser.ParseFile assert [C12,C14] the-file-is-parsed-into-the-file-set-the-patch-was-compiled-with: arg0 == f.fset
 //@   at call go/parser.ParseFile assert [C11,C17] targets-are-parsed-with-comments-and-resolved-identifiers: arg3 == const("go/parser.AllErrors") + const("go/parser.ParseComments")
 //@   at call go/format.Node assert [C12,C14] printed-with-the-same-file-set: arg1 == f.fset
@@ -30,6 +31,7 @@ package patch
 //@   ensures [C12,C14] same-pipeline-as-cli: err == nil && out != src ==> exists n int :: n != 0 && string(out) == impProc(filename, fmtNode(n))
 //@   ensures [C09,C16] failed-replace-reported: replFail > old(replFail) ==> (err != nil && out == nil)
 //@   loop 0
+//@     invariant snap != nil && snap.value != nil && wfV(snap.value)
 //@     invariant [C17] changelogsMade - old(changelogsMade) == changelogsUsed - old(changelogsUsed)
 //@     invariant astOK(base)
 //@     invariant [C09] later-changes-see-the-rewritten-file: fout == nil || fout == base
